@@ -38,7 +38,7 @@ def pblk : SPageBlock :=
   { lead := [sp1], items := [(.item (.decl dTop), [sp1]), (.margin (cps "top-left") [(true, false)] gc mblk, [sp1])],
     last := none }
 def page : SRule := .page [] g psel g pblk
-def href : SHref := .url (true, false, true) [.space] [] (some .sq) (cps "a.css")
+def href : SHref := .url [(true, false), (false, true), (true, false)] [.space] [] (some .sq) (cps "a.css")
 def sheet : SSheet :=
   { charset := some (.dq, cps "utf-8"), lead := [sp1],
     imports := [(.import_ [(true, false)] g href g (some ([idt "print"], g)), [sp1])],
